@@ -373,6 +373,9 @@ class PathExec:
                 args = [base] + args
             else:
                 q = '<dynamic>'
+        elif q.startswith('<') and isinstance(node.func, ast.Attribute):
+            # method call on a parameter / local object: the receiver is the first argument
+            args = [self.ev(node.func.value, st, exc_out)] + args
         spec = self.table.lookup(q) or {}
         # builtins with interpreted meaning
         if q == 'builtins.len' and args:
